@@ -176,8 +176,8 @@ theorem restageRetry_raises (k idx o) : Raises (restageRetry k idx o) notExpr :=
   unfold restageRetry
   raises_walk []
 
-theorem completedRetryDecision_raises (k idx ts ns ev) :
-    Raises (completedRetryDecision E k idx ts ns ev) notExpr := by
+theorem completedRetryDecision_raises (k idx ts os ns ev) :
+    Raises (completedRetryDecision E k idx ts os ns ev) notExpr := by
   unfold completedRetryDecision
   raises_walk [makeTaskContext_raises _ _ _, logError_raises _ _ _ _, C11_request_never_raises_expr _]
 
@@ -200,7 +200,7 @@ theorem updateHead_raises (k ev) : Raises (updateHead E k ev) notExpr := by
 theorem updateTail_raises (recur : TaskKey → Event → M Unit) (hrec : ∀ k ev, Raises (recur k ev) notExpr)
     (k ev h) : Raises (updateTail E recur k ev h) notExpr := by
   unfold updateTail updateRest
-  raises_walk [hrec _ _, completedRetryDecision_raises E _ _ _ _ _, evalTransitions_raises E _ _ _ _, markTermIfCompleted_raises _]
+  raises_walk [hrec _ _, completedRetryDecision_raises E _ _ _ _ _ _, evalTransitions_raises E _ _ _ _, markTermIfCompleted_raises _]
 
 theorem updateTaskStateAux_raises (fuel k ev) : Raises (updateTaskStateAux E fuel k ev) notExpr := by
   induction fuel generalizing k ev with
